@@ -5,6 +5,7 @@ Status: the per-entry and whole-log soundness statements are kept at full streng
 -/
 import Gittuf.Spec.C01
 import Gittuf.Props.Witness
+import Gittuf.Proofs.Loop
 namespace Gittuf
 namespace World
 
@@ -49,6 +50,67 @@ theorem C01_no_entry (W : World) (v : Variant) (ref : String)
   split
   · rename_i f l hf hl; rw [h] at hl; cases hl
   · exact ⟨_, rfl⟩
+
+/-- membership in the verified range: every reference-updater entry for `ref` recorded between the
+first and the last entry of the range is in the queue the loop walks -/
+theorem range_mem (W : World) (first last : Nat) (ref : String) (j : Nat) (e : LogEntry)
+    (h1 : first ≤ j) (h2 : j ≤ last) (he : W.log[j]? = some e) (hu : isUpdater e = true) (hr : e.ref = ref) :
+    j ∈ W.range first last ref := by
+  unfold range
+  rw [List.mem_filter]
+  constructor
+  · rw [List.mem_drop_iff_getElem]
+    refine ⟨j - first, ?_, ?_⟩
+    · simp only [List.length_range]; omega
+    · simp only [List.getElem_range]; omega
+  · simp [he, hu, hr]
+
+/-- **C01 soundness of relative verification** (every history, range and variant): if
+`VerifyRelativeForRef` accepts, every entry recorded for the (non-gittuf) reference between the first
+and the last entry of the range is either revoked or was accepted by `verifyEntry` under a policy and
+an attestation state that were in force during the walk.  Side conditions make the statement apply to
+the unchanged tree as well: propagation entries verified (F2 repaired) or none in range; fix entry
+verified (F3 repaired) or nothing revoked in range. -/
+theorem C01_relative_sound (W : World) (v : Variant) (first last : Nat) (ref : String)
+    (h2 : v.f2_propagationSkipped = false ∨ NoBranchProp W (W.range first last ref))
+    (h3 : v.f3_fixNotVerified = false ∨ NoneSkipped W (W.range first last ref))
+    (h : W.verifyRelative v first last ref = .ok ()) :
+    ∃ st, ∀ j e, first ≤ j → j ≤ last → W.log[j]? = some e → isUpdater e = true → e.ref = ref →
+      hasPrefix ref gittufPrefix = false → EntryOK W v st (W.range first last ref) j e := by
+  unfold verifyRelative at h
+  split at h
+  · cases h
+  · rename_i pol hpol
+    split at h
+    · cases h
+    · rename_i att hatt
+      refine ⟨{ policy := pol, att := att }, ?_⟩
+      intro j e hj1 hj2 he hu hr hb
+      have hmem := range_mem W first last ref j e hj1 hj2 he hu hr
+      exact relLoop_sound_gen W v first _ _ _ h2 h3 h j hmem e he (hr ▸ hb)
+
+/-- the same for full verification: the range is [first entry for ref, latest entry for ref] -/
+theorem C01_full_sound (W : World) (v : Variant) (ref : String) (tip : Option Nat)
+    (h : W.verifyRefFull v ref = .ok tip) :
+    ∃ f l, W.firstFor ref = some f ∧ W.latestEntryFor ref = some l ∧
+      ((v.f2_propagationSkipped = false ∨ NoBranchProp W (W.range f l ref)) →
+       (v.f3_fixNotVerified = false ∨ NoneSkipped W (W.range f l ref)) →
+       ∃ st, ∀ j e, f ≤ j → j ≤ l → W.log[j]? = some e → isUpdater e = true → e.ref = ref →
+         hasPrefix ref gittufPrefix = false → EntryOK W v st (W.range f l ref) j e) := by
+  unfold verifyRefFull at h
+  split at h
+  · rename_i f l hf hl
+    refine ⟨f, l, hf, hl, ?_⟩
+    intro h2 h3
+    simp only [bind, Except.bind] at h
+    split at h
+    · cases h
+    · rename_i hrel
+      have : W.verifyRelative v f l ref = .ok () := by
+        rename_i u
+        cases u; exact hrel
+      exact C01_relative_sound W v f l ref h2 h3 this
+  · cases h
 
 end World
 end Gittuf
